@@ -750,7 +750,7 @@ def oracle_replay(hist, bs, w, rec, probe):
       later(o)  = the notifications of the emissions that took effect after S, in call order;
       what o received must be a PREFIX of  replay(o) ++ later(o)  cut after its first terminal
       (nothing duplicated, reordered or invented, replay first) and must be ALL of it unless o
-      unsubscribed;  after dispose(): subscribe is answered with DisposedException only,
+      unsubscribed; nothing is delivered to o after its unsubscribe call returned;  after dispose(): subscribe is answered with DisposedException only,
       emissions raise it;  grammar per observer."""
     tr = Trace(rec)
     bad = []
@@ -788,6 +788,12 @@ def oracle_replay(hist, bs, w, rec, probe):
                 break
         unsubscribed = any(c["op"] == ("unsub", o) and S["end"] is not None and c["start"] > S["end"]
                            for c in tr.order)
+        if unsubscribed:
+            u = min(c["end"] for c in tr.order
+                    if c["op"] == ("unsub", o) and S["end"] is not None and c["start"] > S["end"])
+            late = [n for (i, n, _) in tr.view[o] if i > u]
+            if late:
+                fail("delivery-after-unsubscribe", observer=o, received_after=late)
         if not _is_prefix(got, expect):
             fail("not-a-prefix-of-replay-then-later", observer=o, received=got, expected=expect,
                  subscribed_at=S["now"])
